@@ -380,8 +380,12 @@ def o2o_message_templates():
 def prop_C18(ctx):
     ctx.build(backends=('s1', 's2'))
     q = ctx.tier == 'quick'
+    saved_forms, gen.TREE_TYPE_FORMS = gen.TREE_TYPE_FORMS, gen.TREE_TYPE_FORMS_GENERIC
     items = corpus_cases() + sample(ctx.rng, gen.grid_struct_lines(), 800 if q else 4000) + sample(ctx.rng, gen.grid_enum_lines(full=False), 800 if q else 4000) \
-        + gen.grid_trait_instrs() + gen.composites(ctx.rng, ctx.sz['comp']) + gen.soup(ctx.rng, ctx.sz['soup']) + attr_shape_cases()
+        + gen.grid_trait_instrs() + gen.composites(ctx.rng, ctx.sz['comp']) + gen.soup(ctx.rng, ctx.sz['soup']) + attr_shape_cases() \
+        + gen.c03_cases(ctx.rng, 1500 if q else 15000) + gen.c03_hinted_cases(ctx.rng, 500 if q else 5000) + gen.odd_member_cases(ctx.rng, 1500 if q else 15000) \
+        + gen.c11_cases(ctx.rng, 500 if q else 5000)
+    gen.TREE_TYPE_FORMS = saved_forms
     named = []
     for i, it in enumerate(items):
         if isinstance(it, gen.Item):
@@ -1556,6 +1560,62 @@ def c03_grouped(flat):
     return True
 
 
+def c03_leaf_places(e, path, out):
+    """destination place (list of field names / positions) of every leaf expression of a nested literal"""
+    if isinstance(e, list) and e and e[0] == 'struct':
+        for f in e[2:]:
+            if isinstance(f, list) and f and f[0] == 'f':
+                c03_leaf_places(f[2], path + [oracles.sval(f[1])], out)
+    elif isinstance(e, list) and e and e[0] == 'call' and re.fullmatch(r'[A-Z]\w*', oracles.sval(e[1]) or ''):
+        for i, a in enumerate(e[2:]):
+            c03_leaf_places(a, path + [str(i)], out)
+    else:
+        out.setdefault(oracles.sem_text(e), []).append('.'.join(path))
+
+
+def c03_flavour_paths(ctx, r, ims):
+    """containers with their own shape: into() and into_existing() of one mapping must put every value at the same place of the
+    nested counterpart (field name or position inside each container), whatever the position of the field in the flat struct"""
+    into, existing = {}, {}
+    for key, imp in ims:
+        if key is None:
+            continue
+        kind, fallible, cp, _ = key
+        blk = oracles.fn_block(imp)
+        stmts = blk[1:] if blk else []
+        if kind in ('owned_into', 'ref_into'):
+            e = stmts[-1][1] if stmts and stmts[-1][0] == 'tail' else None
+            if fallible and isinstance(e, list) and e[0] == 'call' and oracles.sval(e[1]) == 'Ok' and len(e) == 3:
+                e = e[2]
+            if isinstance(e, list) and e[0] in ('struct', 'call'):
+                d = {}
+                c03_leaf_places(e, [], d)
+                into[(kind, fallible)] = d
+        elif kind.endswith('existing'):
+            m = oracles.actual_struct_meaning(imp, fallible, True)
+            if m is not None and m[0] == 'assign':
+                d = {}
+                for place, v in m[1].items():
+                    d.setdefault(v, []).append(place[len('other.'):] if place.startswith('other.') else place)
+                existing[(kind, fallible)] = d
+    n = 0
+    for (ki, fi), di in into.items():
+        for (ke, fe), de in existing.items():
+            n += 1       # owned / by-reference flavours alike: a value is compared only where both bodies write the very same expression
+            for v, places in di.items():
+                if 'self.' not in v or v not in de:
+                    continue
+                if sorted(places) != sorted(de[v]):
+                    # which segment differs: the last one (the member's own place inside its container) or an earlier one (the position
+                    # of an index-named *container* inside a tuple-shaped parent: finding F-03d)
+                    a, b = sorted(places)[0].split('.'), sorted(de[v])[0].split('.')
+                    inner = len(a) == len(b) and a[:-1] != b[:-1]
+                    ctx.report(r, 'into_existing (%s, fallible=%s) writes %s to %r, into() (%s, fallible=%s) puts it at %r' % (ke, fe, v, sorted(de[v]), ki, fi, sorted(places)),
+                               'into vs into_existing on the syn-parsed bodies (places inside the nested counterpart)',
+                               key='existing-vs-into-place:container-position' if inner else 'existing-vs-into-place')
+    return n
+
+
 def c03_parent_leaves(form, prefix):
     """[(destination member name, source path below the parent field)] for the leaves of a parsed #[parent(..)] form; None when
     the form uses index members (outside this oracle)"""
@@ -1715,6 +1775,8 @@ def prop_C03(ctx):
                         cell = 'existing-index-child' if not named else 'existing-paths'
                         ctx.report(r, 'conversion (%s): each field must be written to counterpart.<child path>.<field>: expected %r, generated %r' % (kind, exp, m),
                                    'nesting tree vs syn-parsed body', key=cell)
+        elif it.meta['gen'] == 'c03_hinted' and not interleaved:
+            n += c03_flavour_paths(ctx, r, ims)
         elif it.meta['gen'] == 'c03_parent' and it.shape == 'named':
             n += c03_parent_oracle(ctx, r, it, ims)
         elif it.meta['gen'] == 'c03_bare_parent':
